@@ -229,6 +229,10 @@ def rel_line(self, node):
     return getattr(node, "lineno", 0) - base
 
 
+def rel_line_cur(self):
+    return "gen"
+
+
 def s_Assert(self, node, st):
     def k(s, c):
         self.oblige(s, truthy(c), f"assert@{self.rel_line(node)}", "assert")
@@ -557,6 +561,8 @@ def for_over(self, node, st: State, it):
         s_exit.trail.append(f"for{ordinal}=exit")
         # body path
         s.assume(z3.And(i >= 0, i < n))
+        # theorem of the sequence theory, given as a hint (z3 does not find it unprompted)
+        s.assume(z3.SubSeq(it.term, 0, i + 1) == z3.Concat(z3.SubSeq(it.term, 0, i), z3.Unit(it.term[i])))
         self.assume_inv(s, spec, {"i": i, "seq": it.term})
         s.trail.append(f"for{ordinal}=body")
         exits = [(OK, s_exit, None)]
@@ -635,8 +641,9 @@ def do_yield(self, st: State, val):
     if hook:
         hook(self, st, v)
     oset = st.ghost["$out_set"]
-    st.ghost["$out_fresh_ok"] = True
-    st.ghost["$last_yield_new"] = Val(z3.Not(z3.Select(oset.term, v.term)), BOOL)
+    top = getattr(self, "top_contract", None)
+    if top is not None and getattr(top, "gen_distinct", False) and self.call_depth == 0:
+        self.oblige(st, z3.Not(z3.Select(oset.term, v.term)), f"yield@{self.rel_line_cur()}:not-yielded-before", "ensures")
     st.ghost["$out_set"] = Val(z3.Store(oset.term, v.term, True), oset.ty)
     st.ghost["$out_count"] = Val(st.ghost["$out_count"].term + 1, INT)
     if "$out_seq" in st.ghost:
@@ -678,7 +685,7 @@ def do_yield_from(self, st: State, val):
 
 for _name, _obj in list(globals().items()):
     if callable(_obj) and (_name.startswith("s_") or _name in (
-            "exec_block", "exec_stmt", "assign_target", "apply_annotation", "annotation_type", "rel_line", "enter_cm",
+            "exec_block", "exec_stmt", "assign_target", "rel_line_cur", "apply_annotation", "annotation_type", "rel_line", "enter_cm",
             "lock_identity", "exit_cm", "exc_is_subclass", "match_handler", "loop_spec", "mutated_local_collections",
             "havoc_for_loop", "in_frame", "check_inv", "assume_inv", "for_over", "do_yield", "yield_repr", "cur_gen_elem",
             "do_yield_from")):
